@@ -306,3 +306,5 @@ def run(ctx):
     boundaries.check_writes(ctx, 'C04.RW', 'C04')
     boundaries.check_guards(ctx, 'C04.RG', 'C04')
     boundaries.check_calls(ctx, 'C04.RC', 'C04')
+    from .. import errdisc
+    errdisc.check(ctx, 'C04.RD', 'C04', 26)
